@@ -22,35 +22,40 @@ Example C15_hevc_pps_hyp :
 Proof. vm_compute. repeat split; reflexivity. Qed.
 
 (* sp: the SPS the PPS refers to, pp: the PPS the slice refers to; spsmap / ppsmap are otherwise
-   arbitrary.  hslice_rps_guard is the exact guard that excludes known finding C15-F11.  s_size of the
-   expected value = nbytes_at (hraw_slice ..) (header bits incl. byte_alignment()). *)
+   arbitrary.  s_size of the expected value = nbytes_at (hraw_slice ..) (header bits incl.
+   byte_alignment()).  (The former guard for finding C15-F11 is gone: the finding is fixed.) *)
 Theorem C15_hevc_slice : forall spsmap ppsmap sp pp v,
   hsps_valid sp = true -> hpps_valid pp = true -> hslice_valid sp pp v = true ->
-  hslice_rps_guard sp pp v = true ->
   ppsmap (sx_slice_pic_parameter_set_id v) = Some (expected_hpps pp) ->
   spsmap (sx_pps_seq_parameter_set_id pp) = Some (expected_hsps sp) ->
   hparse_slice_br spsmap ppsmap (hnalu_slice sp pp v) = Ok (expected_hslice sp pp v).
 Proof. exact hevc_slice. Qed.
 Print Assumptions C15_hevc_slice.
 
-(* known finding C15-F11: an inter-predicted set selected from the SPS contributes 0 to the parser's
-   NumPicTotalCurr, so ref_pic_lists_modification() is skipped *)
-Theorem C15_hevc_slice_rps_refuted :
-  exists sp pp v,
-    hsps_valid sp = true /\ hpps_valid pp = true /\ hslice_valid sp pp v = true
-    /\ hparse_slice_br (fun id => if id =? sx_sps_seq_parameter_set_id sp then Some (expected_hsps sp) else None)
-                       (fun id => if id =? sx_pps_pic_parameter_set_id pp then Some (expected_hpps pp) else None)
-                       (hnalu_slice sp pp v)
-       <> Ok (expected_hslice sp pp v).
-Proof. exact hevc_slice_rps_refuted. Qed.
-Print Assumptions C15_hevc_slice_rps_refuted.
+(* the shape of the former finding C15-F11 is covered: a P slice selecting the inter-predicted SPS set
+   1 (used entries) under a PPS with lists_modification_present_flag = 1; NumPicTotalCurr = 3 and
+   ref_pic_lists_modification() is parsed *)
+Example C15_hevc_slice_hyp_f :
+  hsps_valid ex_hsps = true /\ hpps_valid ex_hpps_r = true
+  /\ hslice_valid ex_hsps ex_hpps_r ex_hslice_f = true
+  /\ sx_lists_modification_present_flag ex_hpps_r = true
+  /\ nth_error (sx_st_ref_pic_sets ex_hsps) 1 = Some (RpsInter 0 true 0 [(true, true); (false, true); (true, true)])
+  /\ ex_ppsmap (sx_slice_pic_parameter_set_id ex_hslice_f) = Some (expected_hpps ex_hpps_r)
+  /\ ex_spsmap (sx_pps_seq_parameter_set_id ex_hpps_r) = Some (expected_hsps ex_hsps)
+  /\ hs_num_pic_total_curr ex_hsps ex_hpps_r ex_hslice_f = 3
+  /\ hparse_slice_br ex_spsmap ex_ppsmap (hnalu_slice ex_hsps ex_hpps_r ex_hslice_f)
+     = Ok (expected_hslice ex_hsps ex_hpps_r ex_hslice_f)
+  /\ s_st_idx (expected_hslice ex_hsps ex_hpps_r ex_hslice_f) = 1
+  /\ rps_nused (s_st_rps (expected_hslice ex_hsps ex_hpps_r ex_hslice_f)) = 2
+  /\ s_rplm (expected_hslice ex_hsps ex_hpps_r ex_hslice_f) = Some (true, [2], false, []).
+Proof. vm_compute. repeat split; reflexivity. Qed.
 
 (* a B slice, non-first segment of a 960x540 picture with 64x64 CTBs (8 address bits), RPS coded in the
-   slice and inter-predicted (guard holds: lists_modification_present_flag = 0), long-term entries,
+   slice and inter-predicted from SPS set 1, long-term entries,
    pred weight table, entry points, header extension; maps with other entries, pps id 5 != sps id 2 *)
 Example C15_hevc_slice_hyp_b :
   hsps_valid ex_hsps = true /\ hpps_valid ex_hpps_b = true
-  /\ hslice_valid ex_hsps ex_hpps_b ex_hslice_b = true /\ hslice_rps_guard ex_hsps ex_hpps_b ex_hslice_b = true
+  /\ hslice_valid ex_hsps ex_hpps_b ex_hslice_b = true
   /\ ex_ppsmap (sx_slice_pic_parameter_set_id ex_hslice_b) = Some (expected_hpps ex_hpps_b)
   /\ ex_spsmap (sx_pps_seq_parameter_set_id ex_hpps_b) = Some (expected_hsps ex_hsps)
   /\ hparse_slice_br ex_spsmap ex_ppsmap (hnalu_slice ex_hsps ex_hpps_b ex_hslice_b)
@@ -63,9 +68,9 @@ Example C15_hevc_slice_hyp_b :
   /\ s_size (expected_hslice ex_hsps ex_hpps_b ex_hslice_b) = 43.
 Proof. vm_compute. repeat split; reflexivity. Qed.
 
-(* a P slice with an explicit RPS coded in the slice and ref_pic_lists_modification (guard holds) *)
+(* a P slice with an explicit RPS coded in the slice and ref_pic_lists_modification *)
 Example C15_hevc_slice_hyp_e :
-  hslice_valid ex_hsps ex_hpps_e ex_hslice_e = true /\ hslice_rps_guard ex_hsps ex_hpps_e ex_hslice_e = true
+  hslice_valid ex_hsps ex_hpps_e ex_hslice_e = true
   /\ sx_lists_modification_present_flag ex_hpps_e = true
   /\ hparse_slice_br ex_spsmap ex_ppsmap (hnalu_slice ex_hsps ex_hpps_e ex_hslice_e)
      = Ok (expected_hslice ex_hsps ex_hpps_e ex_hslice_e)
